@@ -38,6 +38,14 @@ Theorem C09_non_unit_drops_unit : forall search o present,
 Proof. exact non_unit_drops_unit. Qed.
 Print Assumptions C09_non_unit_drops_unit.
 
+(* … and with --layer patterns as well: what the patterns accept, but never the unit-test layer. *)
+Theorem C09_non_unit_with_layer_patterns : forall search o present,
+  non_unit o = true -> unit o = false ->
+  forall n, In n (keep_layers search (post o) present) <->
+            (In n present /\ n <> unit_name /\ (layer_pats o = [] \/ accept search (layer_pats o) n = true)).
+Proof. exact non_unit_with_layer_patterns. Qed.
+Print Assumptions C09_non_unit_with_layer_patterns.
+
 Theorem C09_both_keep_everything : forall search o present,
   unit o = true -> non_unit o = true -> layer_pats o = [] ->
   keep_layers search (post o) present = present.
